@@ -37,7 +37,9 @@ Inductive rblock :=
 
 Definition raw_block (rest : bytes) : rblock :=
   let '(data, rest1, ok) := read_string rest in
-  if negb ok then REof        (* io.EOF: data read so far is dropped *)
+  (* io.EOF ends the pass; with data read so far the chunk is an unterminated last line and is
+     still processed (a truncated entry then fails on its missing body) *)
+  if negb ok && is_nil data then REof
   else
     let d := trim data in
     match d with
